@@ -443,6 +443,12 @@ func (s *Store) update(kind string, obj client.Object, sub bool) (client.Object,
 		st.SetDeletionGracePeriodSeconds(old.GetDeletionGracePeriodSeconds())
 		st.SetGeneration(old.GetGeneration())
 	}
+	// the last finalizer of an object that is being deleted was removed: the object goes away
+	if !sub && kind != KindPod && st.GetDeletionTimestamp() != nil && len(st.GetFinalizers()) == 0 {
+		delete(s.objs[kind], k)
+		s.emit(Event{Type: Deleted, Kind: kind, Old: old})
+		return old, st, nil
+	}
 	st.SetResourceVersion(s.nextRV())
 	s.bucket(kind)[k] = st
 	s.emit(Event{Type: Modified, Kind: kind, Old: old, New: st})
@@ -490,6 +496,11 @@ func (s *Store) patchMerge(kind string, obj client.Object, data []byte, sub bool
 	st.SetCreationTimestamp(old.GetCreationTimestamp())
 	st.SetDeletionTimestamp(old.GetDeletionTimestamp())
 	st.SetDeletionGracePeriodSeconds(old.GetDeletionGracePeriodSeconds())
+	if !sub && kind != KindPod && st.GetDeletionTimestamp() != nil && len(st.GetFinalizers()) == 0 {
+		delete(s.objs[kind], k)
+		s.emit(Event{Type: Deleted, Kind: kind, Old: old})
+		return old, st, nil
+	}
 	st.SetResourceVersion(s.nextRV())
 	s.bucket(kind)[k] = st
 	s.emit(Event{Type: Modified, Kind: kind, Old: old, New: st})
@@ -524,6 +535,19 @@ func (s *Store) delete(kind string, obj client.Object) (client.Object, client.Ob
 			s.emit(Event{Type: Modified, Kind: kind, Old: old, New: st})
 			return old, st, nil
 		}
+	}
+	if kind != KindPod && len(old.GetFinalizers()) > 0 {
+		// finalizers hold the object back: it is only marked as being deleted
+		if old.GetDeletionTimestamp() != nil {
+			return old, old, nil
+		}
+		st := old.DeepCopyObject().(client.Object)
+		now := metav1.NewTime(s.Now().Truncate(time.Second))
+		st.SetDeletionTimestamp(&now)
+		st.SetResourceVersion(s.nextRV())
+		s.bucket(kind)[k] = st
+		s.emit(Event{Type: Modified, Kind: kind, Old: old, New: st})
+		return old, st, nil
 	}
 	delete(s.objs[kind], k)
 	s.emit(Event{Type: Deleted, Kind: kind, Old: old})
